@@ -16,7 +16,7 @@
 //!   STEP = (term p)                                   process p observed completed/failed after a worker step
 //!        | (ev EVENT (calls CALL...) (own (r p)...))  one environment step: the event handled, the backend
 //!                                                     calls it made (in order), ownership map afterwards
-//!   EVENT= (eff p (open n)) | (eff p (use r n)) | (spawn caller child (V...)) | (send to V)
+//!   EVENT= (eff p (open n)) | (eff p (use r n)) | (spawn caller child (V...)) | (send to V from)
 //!        | (results awaiter (p...)) | (complete p ANS) | (await p (t...)) | (other)
 //!   CALL = (exec p (open n) ANS) | (exec p (use r n) ANS) | (close r)
 //!   ANS  = (now (res r)) | (now o) | (now err) | (async) | (fail)        for `complete`: (res r) | o | err
@@ -192,7 +192,8 @@ struct Pending {
 #[derive(Default)]
 struct Sim {
     cmd: Vec<VecDeque<Command<TestEffect>>>,
-    evt: Vec<VecDeque<Event<TestEffect>>>,
+    /// events with, for a DeliverAction, the process that executed the Send instruction
+    evt: Vec<VecDeque<(Event<TestEffect>, Option<ProcessId>)>>,
     /// worker whose oldest event is visible to the current Environment::step
     release_event: Option<usize>,
     /// commands worker i may still take in the current Worker::step (None = all)
@@ -229,7 +230,7 @@ impl CommandReceiver<TestEffect> for Rx {
 
 impl EventSender<TestEffect> for Tx {
     fn send(&mut self, event: Event<TestEffect>) -> Result<(), EnvironmentError> {
-        self.0.lock().unwrap().evt[self.1].push_back(event);
+        self.0.lock().unwrap().evt[self.1].push_back((event, None));
         Ok(())
     }
 }
@@ -275,7 +276,7 @@ fn effect_text(e: &TestEffect) -> String {
     }
 }
 
-fn event_text(e: &Event<TestEffect>) -> String {
+fn event_text(e: &Event<TestEffect>, sender: Option<ProcessId>) -> String {
     match e {
         Event::SpawnAction {
             caller,
@@ -294,7 +295,12 @@ fn event_text(e: &Event<TestEffect>) -> String {
             s
         }
         Event::DeliverAction { target, message, .. } => {
-            format!("(send {} {})", target, value_text(message))
+            format!(
+                "(send {} {} {})",
+                target,
+                value_text(message),
+                sender.map(|p| p.to_string()).unwrap_or_else(|| "?".to_string())
+            )
         }
         Event::AwaitAction { awaiter, targets } => {
             let t: Vec<String> = targets.iter().map(|t| t.to_string()).collect();
@@ -331,10 +337,10 @@ impl WorkerHandle<TestEffect> for Handle {
         if s.release_event == Some(self.1) {
             s.release_event = None;
             let e = s.evt[self.1].pop_front();
-            if let Some(ev) = &e {
-                s.event_text = Some(event_text(ev));
+            if let Some((ev, sender)) = &e {
+                s.event_text = Some(event_text(ev, *sender));
             }
-            return Ok(e);
+            return Ok(e.map(|(ev, _)| ev));
         }
         Ok(None)
     }
@@ -463,6 +469,7 @@ fn run_once(bytecode: Bytecode, nworkers: usize, seed: u64) -> String {
     let mode = rng.below(4); // 0 fair, 1 workers first, 2 environment first, 3 completions late
     let partial_cmds = rng.below(3) == 0;
     verif::set_quantum(quantum);
+    verif::set_tracing(true);
 
     let shared: Shared = Arc::new(Mutex::new(Sim::default()));
     {
@@ -551,8 +558,24 @@ fn run_once(bytecode: Bytecode, nworkers: usize, seed: u64) -> String {
                         None
                     };
                 }
+                let before = shared.lock().unwrap().evt[i].len();
                 let r = workers[i].step(0);
-                shared.lock().unwrap().cmd_budget = None;
+                // the Send instruction executed in this step (at most one action per step) names
+                // the sender of the DeliverAction it produced (the event itself has no sender)
+                let sender = verif::take_trace()
+                    .iter()
+                    .rev()
+                    .find(|t| matches!(t.instruction, quiver_core::bytecode::Instruction::Send))
+                    .map(|t| t.pid);
+                {
+                    let mut s = shared.lock().unwrap();
+                    s.cmd_budget = None;
+                    for (ev, from) in s.evt[i].iter_mut().skip(before) {
+                        if matches!(ev, Event::DeliverAction { .. }) {
+                            *from = sender;
+                        }
+                    }
+                }
                 if let Err(e) = r {
                     end = format!("(env-error worker {:?})", e).replace('\n', " ");
                     break;
@@ -632,6 +655,7 @@ fn run_once(bytecode: Bytecode, nworkers: usize, seed: u64) -> String {
     }
     let router: Vec<String> = d.process_router.iter().map(|(p, w)| format!("({} {})", p, w)).collect();
     verif::set_quantum(0);
+    verif::set_tracing(false);
     format!(
         "(run (sched {}) (quantum {}) (mode {}{}) (end {}) (steps {}) (final {} (status {}) (mail {}) (router {})))",
         seed,
@@ -691,6 +715,7 @@ fn main() {
                 }
                 Err(loc) => {
                     verif::set_quantum(0);
+                    verif::set_tracing(false);
                     out.push_str(&format!(" (run (sched {}) (end (panic \"{}\")))", s, loc));
                 }
             }
